@@ -364,7 +364,12 @@ theorem quote_in_a_name_breaks_layout_equivalence :
     lamOk e = true ∧ anyComment e = false ∧ namesOk e = false := by
   decide +kernel
 
-/-! ### 8. END TO END on the operator fragment: format, then read the TEXT back -/
+/-! ### 8. END TO END on the fragment of C10 (`Frag`: operators, calls, index, field, list
+    literals, lambdas, conditionals): format, then read the TEXT back.
+
+    `canonF t` is `format_single_line t` as a concrete syntax tree: the printer's tree `canon t`
+    except that, where `format_single_line` itself descends (lambda bodies, call arguments, list
+    items), a lambda with ONE required parameter is written `x => e` instead of `(x) => e`. -/
 
 section text
 open Blots.ExprPeg Blots.FormatFrag
@@ -381,31 +386,97 @@ theorem format_is_relayout (t : Expr) (h : Frag t) (w indent : Nat) :
     otherwise, for a binary operator, `left ⏎ indent+2 blanks  op ␣ right` over the re-formatted
     operands, for a prefix / postfix operator the sign directly at the re-formatted operand. -/
 theorem format_layout_tree (w indent : Nat) :
-    (∀ t, Frag t → fits w indent t = true → fmtCST w indent t = canon t) ∧
-    (∀ op l r, fits w indent (.bin op l r) = false → fmtCST w indent (.bin op l r) =
+    (∀ t, Frag t → isLambda t = false → fits w indent t = true → fmtCST w indent t = canonF t) ∧
+    (∀ op l r, fits w indent (.bin op l r) = false → (chainOp op && isLambda r) = false →
+      fmtCST w indent (.bin op l r) =
       .bin op (wrap (needsParens l (.binLeft op)) (fmtCST w indent l))
         (.lf :: List.replicate (indent + 2) .sp) [.sp]
         (wrap (needsParens r (.binRight op)) (fmtCST w (indent + 2) r))) ∧
+    (∀ op l r, fits w indent (.bin op l r) = false → (chainOp op && isLambda r) = true →
+      fmtCST w indent (.bin op l r) =
+      .bin op (wrap (needsParens l (.binLeft op)) (fmtCST w indent l))
+        (if chainFits w indent op l r then [.sp] else .lf :: List.replicate indent .sp) [.sp]
+        (wrap (needsParens r (.binRight op)) (fmtCST w indent r))) ∧
+    (∀ args body, fmtCST w indent (.lambda args body) =
+      if lambdaBodyNeedsParens body then
+        .lambda (headF args) [.sp] [.sp] (.paren [] (fmtCST w indent body) [])
+      else if lamFits w indent args body then .lambda (headF args) [.sp] [.sp] (fmtCST w indent body)
+      else .lambda (headF args) [.sp] (.lf :: List.replicate (indent + 2) .sp)
+        (fmtCST w (indent + 2) body)) ∧
     (∀ op e, fits w indent (.un op e) = false → fmtCST w indent (.un op e) =
       .un op (wrap (needsParens e .prefix_) (fmtCST w indent e))) ∧
     (∀ e, fits w indent (.fact e) = false → fmtCST w indent (.fact e) =
-      .fact (wrap (needsParens e .postfix_) (fmtCST w indent e))) := by
-  refine ⟨?_, ?_, ?_, ?_⟩
-  · intro t h hf
+      .fact (wrap (needsParens e .postfix_) (fmtCST w indent e))) ∧
+    (∀ f args, fits w indent (.call f args) = false → fmtCST w indent (.call f args) =
+      mkCallML indent (wrap (needsParens f .postfix_) (fmtCST w indent f))
+        (fmtArgsCST w (indent + 2) args)) ∧
+    (∀ e i, fits w indent (.access e i) = false → fmtCST w indent (.access e i) =
+      .access (wrap (needsParens e .postfix_) (fmtCST w indent e)) [] (fmtCST w indent i) []) ∧
+    (∀ e n, fits w indent (.dot e n) = false → fmtCST w indent (.dot e n) =
+      .dot (wrap (needsParens e .postfix_) (fmtCST w indent e)) n) ∧
+    (∀ items, fits w indent (.list items) = false → fmtCST w indent (.list items) =
+      mkListML indent (fmtItemsCST w (indent + 2) items)) ∧
+    (∀ c t e, fits w indent (.cond c t e) = false → fmtCST w indent (.cond c t e) =
+      condCST indent (condHeadFits w indent c) (fmtCST w indent c) (fmtCST w (indent + 2) c)
+        (fmtCST w (indent + 2) t)
+        (match fmtChainCST w indent e with | some _ => [.sp] | none => .lf :: List.replicate (indent + 2) .sp)
+        (match fmtChainCST w indent e with | some x => x | none => fmtCST w (indent + 2) e)) := by
+  refine ⟨?_, ?_, ?_, ?_, ?_, ?_, ?_, ?_, ?_, ?_, ?_⟩
+  · intro t h hl hf
     cases t <;> first
-      | (simp [Frag, frag] at h; done)
+      | (simp [Frag, frag, fragB] at h; done)
+      | (simp [isLambda] at hl; done)
       | (unfold fmtCST; rw [if_pos hf])
-      | rfl
-  · intro op l r hf; rw [fmtCST, hf]; rfl
+      | (unfold fmtCST canonF; rfl)
+  · intro op l r hf hc; rw [fmtCST, hf, hc]; rfl
+  · intro op l r hf hc; rw [fmtCST, hf, hc]; rfl
+  · intro args body; rw [fmtCST]; rfl
   · intro op e hf; rw [fmtCST, hf]; rfl
   · intro e hf; rw [fmtCST, hf]; rfl
+  · intro f args hf; rw [fmtCST, hf]; rfl
+  · intro e i hf; rw [fmtCST, hf]; rfl
+  · intro e n hf; rw [fmtCST, hf]; rfl
+  · intro items hf; rw [fmtCST, hf]; rfl
+  · intro c t e hf; rw [fmtCST, hf]; rfl
+
+/-- the multi-line conditional: `if c then⏎ (indent+2) t⏎ indent else …` when `if c then` fits,
+    else `if c'⏎ indent then⏎ (indent+2) t⏎ indent else …` with the condition re-formatted one
+    level deeper; `else` is followed by one blank and the else-if chain at the same indent, or
+    by a line break and the else-expression one level deeper.  Every gap is non-empty layout, the
+    one behind `if` is a blank: what the atomic rule `conditional` asks for. -/
+theorem format_cond_layout (indent : Nat) (cC cIn tIn eC : CST) (l4 : Lay) :
+    condCST indent true cC cIn tIn l4 eC =
+      .cond [.sp] cC [.sp] (.lf :: List.replicate (indent + 2) .sp) tIn
+        (.lf :: List.replicate indent .sp) l4 eC ∧
+    condCST indent false cC cIn tIn l4 eC =
+      .cond [.sp] cIn (.lf :: List.replicate indent .sp) (.lf :: List.replicate (indent + 2) .sp) tIn
+        (.lf :: List.replicate indent .sp) l4 eC :=
+  ⟨rfl, rfl⟩
+
+/-- the multi-line call: `f(` line break, every argument at `indent + 2` followed by a comma and
+    a line break, `)` at `indent` — the trailing comma is followed by a line break, as
+    `call_list` requires (`("," ~ NEWLINE)?`); a multi-line list is laid out the same way -/
+theorem format_call_layout (indent : Nat) (f : CST) (p : Bool × CST) (ps : List (Bool × CST)) :
+    mkCallML indent f (p :: ps) =
+      .call f (.lf :: List.replicate (indent + 2) .sp) (mkArgsML indent p ps)
+        (.comma [] (.lf :: List.replicate indent .sp)) ∧
+    mkListML indent (p :: ps) =
+      .list (.lf :: List.replicate (indent + 2) .sp) (mkArgsML indent p ps)
+        (.comma [] (.lf :: List.replicate indent .sp)) ∧
+    (Close.comma [] (.lf :: List.replicate indent .sp)).okCall = true ∧
+    (Close.comma [] (.lf :: List.replicate indent .sp)).okList = true ∧
+    mkArgsML indent p [] = .last p.1 p.2 ∧
+    (∀ q rest, mkArgsML indent p (q :: rest) =
+      .cons p.1 p.2 [] (.lf :: List.replicate (indent + 2) .sp) (mkArgsML indent q rest)) :=
+  ⟨rfl, rfl, rfl, rfl, rfl, fun _ _ => rfl⟩
 
 /-- the same on strings: where the single-line form fits the output is `expr_to_source`;
     where it does not, the operator of a binary node starts a new line two columns deeper and
     is followed by one blank. -/
 theorem format_layout_text (w indent : Nat) :
-    (∀ t, Frag t → fits w indent t = true → fmtImpl w indent t = exprToSource t) ∧
-    (∀ op l r, Frag (.bin op l r) → fits w indent (.bin op l r) = false →
+    (∀ t, Frag t → isLambda t = false → fits w indent t = true →
+      fmtImpl w indent t = fmtSingle t) ∧
+    (∀ op l r, isLambda r = false → fits w indent (.bin op l r) = false →
       fmtImpl w indent (.bin op l r) =
         parenIf (needsParens l (.binLeft op)) (fmtImpl w indent l) ++ "\n" ++
           makeIndent (indent + 2) ++ opSpelling op ++ " " ++
@@ -413,10 +484,19 @@ theorem format_layout_text (w indent : Nat) :
     (∀ op e, fits w indent (.un op e) = false → fmtImpl w indent (.un op e) =
       unaryOpToSource op ++ parenIf (needsParens e .prefix_) (fmtImpl w indent e)) ∧
     (∀ e, fits w indent (.fact e) = false → fmtImpl w indent (.fact e) =
-      parenIf (needsParens e .postfix_) (fmtImpl w indent e) ++ "!") :=
-  ⟨fun t h hf => fmtImpl_fits t h w indent hf,
-   fun op l r h hf => fmtImpl_bin_break w indent op l r (frag_notLambda (frag_bin h).2) hf,
-   fmtImpl_un_break w indent, fmtImpl_fact_break w indent⟩
+      parenIf (needsParens e .postfix_) (fmtImpl w indent e) ++ "!") ∧
+    (∀ f a rest, fits w indent (.call f (a :: rest)) = false →
+      fmtImpl w indent (.call f (a :: rest)) =
+        parenIf (needsParens f .postfix_) (fmtImpl w indent f) ++ "(" ++
+          render (fmtArgsP w (indent + 2) (a :: rest)) ++ "\n" ++ makeIndent indent ++ ")") ∧
+    (∀ e i, fits w indent (.access e i) = false → fmtImpl w indent (.access e i) =
+      parenIf (needsParens e .postfix_) (fmtImpl w indent e) ++ "[" ++ fmtImpl w indent i ++ "]") ∧
+    (∀ e n, fits w indent (.dot e n) = false → fmtImpl w indent (.dot e n) =
+      parenIf (needsParens e .postfix_) (fmtImpl w indent e) ++ "." ++ n) :=
+  ⟨fun t h hl hf => fmtImpl_fits t h w indent hf hl,
+   fun op l r hr hf => fmtImpl_bin_break w indent op l r hr hf,
+   fmtImpl_un_break w indent, fmtImpl_fact_break w indent, fmtImpl_call_break w indent,
+   fmtImpl_access_break w indent, fmtImpl_dot_break w indent⟩
 
 /-- THE LAYOUT THE FORMATTER CHOOSES IS ADMISSIBLE for each of the 26 binary operators, word
     or symbol: any layout that starts with a line break in front of the operator, one blank
@@ -652,6 +732,76 @@ example : (formatCST x2 (some 6)).text = '(' :: ((fmtCST 6 0 x2).text ++ [')']) 
     operator, `!=` directly behind its operand -/
 example : reads "a and\n  b" = none ∧ reads "a\n  and b" = some "a and b" ∧
     reads "g!!= true" = none ∧ reads "g!\n  != true" = some "g! != true" := by decide +kernel
+
+/-- calls, index and field accesses: `g(a + b, ...c.d)[e](2)` at three widths — the multi-line
+    call layout (every argument on its own line, trailing comma, `)` on its own line) nests -/
+private abbrev x3 : Expr :=
+  .call (.access (.call ig [.bin .add ia ib, .spread (.dot ic "d")]) ie) [two]
+example : Frag x3 := by decide +kernel
+example : formatExpr x3 (some 80) = "g(a + b, ...c.d)[e](2)" ∧
+    formatExpr x3 (some 12) = "g(\n  a + b,\n  ...c.d,\n)[e](\n  2,\n)" ∧
+    formatExpr x3 (some 1) = "g(\n  a\n    + b,\n  ...c.d,\n)[e](\n  2,\n)" := by
+  decide +kernel
+example : parseText (formatExpr x3 (some 1)) = some x3 ∧
+    parseText (formatExpr x3 (some 12)) = some x3 ∧ parseText (formatExpr x3 (some 80)) = some x3 :=
+  ⟨format_text_roundtrip x3 (by decide +kernel) 1, format_text_roundtrip x3 (by decide +kernel) 12,
+    format_text_roundtrip x3 (by decide +kernel) 80⟩
+example : reads (formatExpr x3 (some 1)) = some "g(a + b, ...c.d)[e](2)" ∧
+    reads (formatExpr x3 (some 12)) = some "g(a + b, ...c.d)[e](2)" := by decide +kernel
+/-- WHAT WOULD NOT READ BACK, and the formatter never writes: a trailing comma without a line
+    break behind it, a line break in front of a comma, blanks inside the brackets of an index -/
+example : reads "g(\n  2,)" = none ∧ reads "g(\n  2, )" = none ∧ reads "g(a\n  , b)" = none ∧
+    reads "g[ 2 ]" = none ∧ reads "g(\n  2,\n)" = some "g(2)" := by decide +kernel
+
+/-- list literals: `[a + b, ...g(c), []]` at three widths -/
+private abbrev li (e : Expr) : Item := .mk [] e none
+private abbrev x4 : Expr :=
+  .list [li (.bin .add ia ib), li (.spread (.call ig [ic])), li (.list [])]
+example : Frag x4 := by decide +kernel
+example : formatExpr x4 (some 80) = "[a + b, ...g(c), []]" ∧
+    formatExpr x4 (some 10) = "[\n  a + b,\n  ...g(c),\n  [],\n]" ∧
+    formatExpr x4 (some 1) = "[\n  a\n    + b,\n  ...g(\n    c,\n  ),\n  [],\n]" := by
+  decide +kernel
+example : parseText (formatExpr x4 (some 1)) = some x4 ∧
+    parseText (formatExpr x4 (some 10)) = some x4 ∧ parseText (formatExpr x4 (some 80)) = some x4 :=
+  ⟨format_text_roundtrip x4 (by decide +kernel) 1, format_text_roundtrip x4 (by decide +kernel) 10,
+    format_text_roundtrip x4 (by decide +kernel) 80⟩
+example : reads (formatExpr x4 (some 1)) = some "[a + b, ...g(c), []]" := by decide +kernel
+
+/-- conditionals: an else-if chain at three widths -/
+private abbrev x5 : Expr :=
+  .cond (.bin .lt ia ib) (.call ig [ia]) (.cond (.bin .eq ia ib) (.list [li ia, li ib]) (.un .negate ic))
+example : Frag x5 := by decide +kernel
+example : formatExpr x5 (some 80) = "if a < b then g(a) else if a == b then [a, b] else -c" ∧
+    formatExpr x5 (some 20) =
+      "if a < b then\n  g(a)\nelse if a == b then\n  [a, b]\nelse\n  -c" ∧
+    formatExpr x5 (some 4) =
+      "if a\n    < b\nthen\n  g(\n    a,\n  )\nelse if a\n    == b\nthen\n  [\n    a,\n    b,\n  ]\nelse\n  -c" := by
+  decide +kernel
+example : parseText (formatExpr x5 (some 4)) = some x5 ∧
+    parseText (formatExpr x5 (some 20)) = some x5 ∧ parseText (formatExpr x5 (some 80)) = some x5 :=
+  ⟨format_text_roundtrip x5 (by decide +kernel) 4, format_text_roundtrip x5 (by decide +kernel) 20,
+    format_text_roundtrip x5 (by decide +kernel) 80⟩
+example : reads (formatExpr x5 (some 4)) = some "if a < b then g(a) else if a == b then [a, b] else -c" := by
+  decide +kernel
+
+/-- lambdas: a lambda argument with a parenthesised `via` body, `via` with a lambda on the right
+    (its own layout in `format_binary_op_multiline`: the operator at the SAME indent), the
+    parameter of a one-parameter lambda without parentheses where `format_lambda` writes it -/
+private abbrev x6 : Expr :=
+  .bin .via (.call ig [ia, .lambda [.req "y", .opt "z"] (.bin .via (.ident "y") (.ident "z"))])
+    (.lambda [.req "x"] (.bin .add (.ident "x") ib))
+example : Frag x6 := by decide +kernel
+example : formatExpr x6 (some 80) = "g(a, (y, z?) => (y via z)) via (x) => x + b" ∧
+    formatExpr x6 (some 24) = "g(\n  a,\n  (y, z?) => (y via z),\n)\nvia x => x + b" ∧
+    formatExpr x6 (some 4) =
+      "g(\n  a,\n  (y, z?) => (y\n    via z),\n)\nvia x =>\n  x\n    + b" := by decide +kernel
+example : parseText (formatExpr x6 (some 4)) = some x6 ∧
+    parseText (formatExpr x6 (some 24)) = some x6 ∧ parseText (formatExpr x6 (some 80)) = some x6 :=
+  ⟨format_text_roundtrip x6 (by decide +kernel) 4, format_text_roundtrip x6 (by decide +kernel) 24,
+    format_text_roundtrip x6 (by decide +kernel) 80⟩
+example : reads (formatExpr x6 (some 4)) = some "g(a, (y, z?) => (y via z)) via (x) => x + b" := by
+  decide +kernel
 end text_examples
 
 end Blots.C07
